@@ -256,7 +256,7 @@ def subject_evidence(rule):
     def f(agg, samples, distinct, tier):
         return cov(agg.get('histories', 0), distinct, rule, samples,
                    observed=pick(agg, 'histories', 'ops', 'notifies', 'nestedNotifies', 'calls', 'inRoundActions', 'staleRejected', 'selfUnsub',
-                                 'unsubOther', 'lazyRemovals', 'handleMoves', 'nontrivialCases', 'maxDepth', 'tokensDestroyed', 'countdownObservers', 'longLifeRuns', 'longLifeCycles', 'burstObservers'),
+                                 'unsubOther', 'lazyRemovals', 'handleMoves', 'nontrivialCases', 'maxDepth', 'tokensDestroyed', 'countdownObservers', 'callbacksThatThrew', 'longLifeRuns', 'longLifeCycles', 'burstObservers'),
                    operations=agg.get('opCount', {}), signatures=agg.get('signatures', {}), in_round_actions=agg.get('inRoundActionKinds', {}))
     return f
 
@@ -281,7 +281,7 @@ SPECS['C10'] = dict(
     jobs=model_jobs('h_subject', 'C10', (64000, 6000000), variants_thorough=('asan', 'asan-O0')),
     require={'any': {'histories': 5000, 'inRoundActions': 50000, 'selfUnsub': 5000, 'unsubOther': 3000, 'nestedNotifies': 5000}},
     evidence=subject_evidence('C05 histories whose callbacks run seeded scripts while being notified: subscribe a new observer, unsubscribe self / an already-called / a not-yet-called observer '
-                              '(via handle or subject), mute, unmute, invalidate any target, call notify again (nesting <= 3). The script acts on the real Subject and on the model together; '
+                              '(via handle or subject), mute, unmute, invalidate any target, call notify again (nesting <= 3), or throw (the exception must reach the caller of that notify and the round ends there). The script acts on the real Subject and on the model together; '
                               'the model keeps one snapshot per active round and predicts the next invocation; a destruction token per observer must die exactly once and no later than the '
                               'return of the outermost notify. non-trivial = history with >=1 in-round action; distinct = distinct histories. 3 per mille of the cases are bursts instead: one callback '
                               'subscribes and drops (or keeps) 255 .. 131072 observers and then unsubscribes a neighbour that has not been called yet'),
